@@ -358,6 +358,55 @@ func TestC05(t *testing.T) {
 			rec.Sample(sampleCase(ec, map[string]interface{}{"reps": R}))
 		}
 	})
+	// ... and over the home sweep (every lint's own single-edit neighbourhood; one unit in twelve per seed in
+	// quick, all in thorough): three runs on fresh parses agree in status and details, and the linted
+	// object equals an unlinted twin in every exported field
+	{
+		sweepStride, sweepOffset = stats.Scale(12, 1), int(verifSeed()%12)
+		homeSweep(rec, 2, false, "c05", func(ec engine.Case, run *engine.Run) (string, string) {
+			if !run.Parsed || run.RS == nil || run.Panic != "" {
+				return "", ""
+			}
+			var obj interface{}
+			switch ec.Kind {
+			case gen.Cert:
+				obj = run.Cert
+			case gen.CRL:
+				obj = run.CRL
+			default:
+				obj = run.OCSP
+			}
+			if d := diffExported(reflect.ValueOf(obj), reflect.ValueOf(parseOnly(ec.Kind, ec.DER)), string(ec.Kind), 0); d != "" {
+				return "mutated|" + regexp.MustCompile(`\[\d+\]`).ReplaceAllString(d, "[]"), "linting changed exported field " + d + " of the linted object"
+			}
+			v0 := engine.Verdicts(run.RS)
+			for r := 1; r < 3; r++ {
+				r2 := engine.ExecuteReg(ec, run.Reg, run.Cfg, false)
+				if r2.RS == nil {
+					return "", ""
+				}
+				v := engine.Verdicts(r2.RS)
+				names := make([]string, 0, len(v0))
+				for n := range v0 {
+					names = append(names, n)
+				}
+				sort.Strings(names)
+				for _, n := range names {
+					if v[n] != v0[n] {
+						return "repeat-details|" + n, fmt.Sprintf("repetition %d: %s, first run: %s", r, v[n], v0[n])
+					}
+				}
+			}
+			for _, x := range v0 {
+				if x.Status > lint.Pass && x.Details != "" {
+					rec.NT(caseHash(ec))
+					break
+				}
+			}
+			return "", ""
+		}, func(s string) { t.Fatalf("%s", s) })
+		sweepStride, sweepOffset = 1, 0
+	}
 	// directed: map-iteration-prone shapes (several duplicated extensions; several EV .onion names without descriptor)
 	rapidRun(t, "directed", perShard(stats.Scale(300, 6000)), func(rt *rapid.T) {
 		o := co.Certs[rapid.IntRange(0, len(co.Certs)-1).Draw(rt, "base")]
